@@ -19,6 +19,14 @@ AROUND them, as it is in /repo:
       vtable.AddAliases / RemoveAliases / GetAliases            id    simpleName (IsValidIndexName) id          aliases/<v>.json
       es/writer.ProcessIndexRequestPle, vtable.AddVirtualTable  id    simpleName                   id           final/<v>/<sid>/0/
       metrics.EncodeDatapoint (per tag key)                     id    simpleName                   id           tth/<mid>/0/<v>
+      sortindex.getFilename (write, Exists, ReadSortIndex)      id    simpleName                   id           final/<idx>/<sid>/0/0/<v>_auto.srt
+
+  * COLUMN names (client-chosen: the JSON keys of ingested events, the `columns` of POST /api/sort-columns, the sort
+    column of a query) reach a file name in exactly one place that does not hash them: the sort index
+    (pkg/segment/sortindex/sortindex.go getFilename = filepath.Join(segkey, cname ++ suffix ++ ".srt")), which since the
+    repair refuses a name that is not utils.IsSimpleFileName (`sortIndexFile`; `sortIndexFileOld` = before).  Every
+    other per-column file is named by xxhash.Sum64String(cname) printed in decimal: <segkey>_<hash>.csg / .cmi,
+    rups/<hash>.crup (tied by the call-order facts `C19.col.*`: Sum64String precedes the Sprintf of the name).
 
   * `pctDecode` = net/url.PathUnescape (percent-decoding; an invalid escape is an error), `decodeOrKeep` = "decode, on
     error keep the string" — the transformation a `decode after validate` change puts between check and use.
@@ -97,6 +105,28 @@ def segDirPipe (d : List Seg) (H : Seg) : Pipe :=
 
 def tagKeyPipe (d : List Seg) (H : Seg) : Pipe :=
   ⟨id, simpleName, id, fun v => cleanN (dataPath d ++ joinSegs [H, "final".toList, "tth".toList, MID, ['0'], v])⟩
+
+/-! ### sort index of a column -/
+
+/-- index name used by the harness (validated where it enters, see baseSegDir) -/
+def IDX : Str := "c19i".toList
+
+/-- filepath.Join(segkey, cname ++ suf) with segkey = config.GetSegKey = dataPath ++ host ++ "/final/" ++ index ++ "/" ++
+    streamid ++ "/" ++ suffix ++ "/" ++ suffix; `suf` = "_auto.srt" | "_num.srt" | "_str.srt" (never empty, so the joined
+    element is never empty and Join is Clean of the concatenation) — BEFORE the repair: no check of the column name -/
+def sortIndexFileOld (d : List Seg) (H : Seg) (suf : Str) (v : Str) : Option NPath :=
+  some (cleanN (dataPath d ++ joinSegs [H, "final".toList, IDX, SID, ['0'], ['0'], v ++ suf]))
+
+/-- sortindex.getFilename as repaired: a column name that is not a simple file name has no sort index file -/
+def sortIndexFile (d : List Seg) (H : Seg) (suf : Str) (v : Str) : Option NPath :=
+  if simpleName v then sortIndexFileOld d H suf v else none
+
+def sortIndexPipe (d : List Seg) (H : Seg) (suf : Str) : Pipe :=
+  ⟨id, simpleName, id, fun v => cleanN (dataPath d ++ joinSegs [H, "final".toList, IDX, SID, ['0'], ['0'], v ++ suf])⟩
+
+/-- every other per-column file: the name is the decimal print of a hash of the column name -/
+def hashedColumnFile (d : List Seg) (H : Seg) (hash : Str → Nat) (ext : Str) (v : Str) : NPath :=
+  cleanN (dataPath d ++ joinSegs [H, "final".toList, IDX, SID, ['0'], ['0', '_'] ++ (Nat.toDigits 10 (hash v)) ++ ext])
 
 /-! ### metrics: tag keys of a datapoint / of a series -/
 
